@@ -46,6 +46,12 @@ CLAIMED = {
          "the six coupling-restricted get_weight's sum to the unrestricted one and every NC weight builder is additive. Real runs compare the sums entry-wise.",
          "Trusted: Coq kernel+vm_compute; harness; model tied by sampled correspondence; linearity of compute_local in the kernel list (C01). For NfFF>=4 the "
          "massless heavy quarks are slices of light, so the partition proved is over the massive quarks only (DESIGN 4 C07).", "4 C07"),
+ "C09": ("Coq theorems over the rationals (lra/nra/field) on a hand-written model of the threshold test, the decorator, the closure shape and the slow-rescaling point; tied by "
+         "differential correspondence on every class of heavy/*_nc.py and heavy/*_cc.py at dyadic points exactly on / next to the thresholds",
+         "Proof: is_below z <-> Q2(1-z) <= 4 m2 z (boundary included); below the hadronic threshold every order of every NC pair-production channel is the empty distribution; the "
+         "integrand of any LeProHQ-based closure is exactly 0 beyond the partonic threshold, hence on the whole range when x is below; eta > 0 above; the CC convolution point is "
+         "x(1+m2/Q2) and a point >= 1 gives exactly 0. Real FFNS runs check the operator rows across the thresholds.",
+         "Trusted: Coq kernel+vm_compute; harness; LeProHQ is an arbitrary oracle in the model; the mass handed to each channel is part of the Combiner model (compared by corr/wlayer).", "4 C09"),
  "C12": ("Coq theorems (field) on the functional apply_isospin model + regenerated named-target table compared with the documented table by vm_compute; "
          "model tied to the code by differential correspondence",
          "Proof: for every parton map, PDF vector and Z, A<>0, contracting the rotated map equals contracting the proton map with the mixed u/d PDFs; neutron = swap, "
